@@ -26,59 +26,58 @@ theorem C06_step_is_machine_step (c : RtCtx) (σ : CState) (s : Int) (x : Nat) :
 /-- The arm taken inside `feed` on a byte is the first non-else arm that lists the byte, whatever
     comes later in the list (first match wins), and the else arm only when none does. -/
 theorem C06_first_match_wins (s : St) (x : Nat) (a : Arm) (rest : List Arm)
-    (h : s.arms = a :: rest) (hx : a.on.contains x = true) (hne : a.on.contains onElse = false)
-    (hlive : (s.accepting && a.err) = false) :
+    (h : s.arms = a :: rest) (hx : a.on.contains x = true) (hne : a.on.contains onElse = false) :
     s.feedArm x = some a := by
   have hx' : x ∈ a.on := by simpa using hx
   have hne' : onElse ∉ a.on := by simpa using hne
-  simp [St.feedArm, St.feedArm.go, h, hx', hne', hlive]
+  simp [St.feedArm, St.feedArm.go, h, hx', hne']
 
 /-- `end()` uses the arm listing `End` when there is one, otherwise the else arm. -/
 theorem C06_end_uses_end_arm (s : St) (a : Arm) (rest : List Arm)
-    (h : s.arms = a :: rest) (hx : a.on.contains symEnd = true)
-    (hlive : (s.accepting && a.err) = false) :
+    (h : s.arms = a :: rest) (hx : a.on.contains symEnd = true) :
     s.endArm = some a := by
   have hx' : symEnd ∈ a.on := by simpa using hx
-  simp [St.endArm, h, hx', hlive]
+  simp [St.endArm, h, hx']
 
-/-- Once the accepting state is reached, input that only its error handling would take is
-    answered by DONE: no arm is selected. -/
-theorem C06_accepting_ignores_error_arms (s : St) (x : Nat) (hacc : s.accepting = true)
-    (hall : ∀ a ∈ s.arms, a.err = true) : s.feedArm x = none ∧ s.endArm = none := by
-  have hgo : ∀ (arms : List Arm) (b : Bool), (∀ a ∈ arms, a.err = true) →
-      St.feedArm.go s x (fun a => a.on.contains onElse) arms b = none := by
-    intro arms
-    induction arms with
-    | nil => intro b _; simp [St.feedArm.go]
-    | cons a rest ih =>
-      intro b hr
-      have ha := hr a (by simp)
-      have hrest := fun a' h' => hr a' (List.mem_cons_of_mem _ h')
-      simp only [St.feedArm.go, hacc, ha, Bool.and_self, if_true]
-      split
-      · exact ih _ hrest
-      · exact ih _ hrest
-  constructor
-  · simp only [St.feedArm, hgo s.arms false hall]
-    cases he : s.elseArm with
-    | none => rfl
-    | some a =>
-      have : a ∈ s.arms := by
-        simp only [St.elseArm] at he
-        exact List.mem_of_find?_eq_some he
-      simp [hacc, hall a this]
-  · simp only [St.endArm]
-    cases hf : s.arms.find? (fun a => a.on.contains symEnd) with
-    | some a =>
-      have : a ∈ s.arms := List.mem_of_find?_eq_some hf
-      simp [hacc, hall a this]
-    | none =>
-      cases he : s.elseArm with
-      | none => rfl
-      | some a =>
-        have : a ∈ s.arms := by
-          simp only [St.elseArm] at he
-          exact List.mem_of_find?_eq_some he
-        simp [hacc, hall a this]
+/-- Once the accepting state is reached, a symbol that only its error handling would take is
+    answered by DONE: no action runs, nothing is consumed. -/
+theorem C06_accepting_ignores_error_arms (M : Machine) (o : SemOpts) (s : Nat) (x : Nat)
+    (hs : s < M.states.size) (hk : (M.st s).kind = .normal) (hacc : (M.st s).accepting = true)
+    (hall : ∀ a ∈ (M.st s).arms, a.err = true) :
+    M.call o s x = .leaf (.ret "DONE" s 0) := by
+  have h1 : ¬ ((s : Int) < 0) := by omega
+  have h2 : ¬ M.states.size ≤ s := by omega
+  simp only [Machine.call, Machine.stepFuel, Machine.dispatch, h1, h2, hk, Int.toNat_natCast,
+    Bool.false_eq_true, or_self, if_false, ge_iff_le, decide_eq_true_eq]
+  have harm : ∀ arm, (if x = symEnd then (M.st s).endArm else (M.st s).feedArm x) = some arm → arm.err = true := by
+    intro arm h
+    apply hall
+    split at h
+    · simp only [St.endArm] at h
+      split at h
+      · next a hf => simp only [Option.some.injEq] at h; subst h; exact List.mem_of_find?_eq_some hf
+      · simp only [St.elseArm] at h; exact List.mem_of_find?_eq_some h
+    · simp only [St.feedArm] at h
+      split at h
+      · next a hgo =>
+        simp only [Option.some.injEq] at h; subst h
+        have : ∀ (arms : List Arm) (b : Bool) (a : Arm),
+            St.feedArm.go x (fun a => a.on.contains onElse) arms b = some a → a ∈ arms := by
+          intro arms
+          induction arms with
+          | nil => intro b a h; simp [St.feedArm.go] at h
+          | cons a' rest ih =>
+            intro b a h
+            simp only [St.feedArm.go] at h
+            split at h
+            · exact List.mem_cons_of_mem _ (ih _ _ h)
+            · split at h
+              · simp only [Option.some.injEq] at h; subst h; simp
+              · exact List.mem_cons_of_mem _ (ih _ _ h)
+        exact this _ _ _ hgo
+      · simp only [St.elseArm] at h; exact List.mem_of_find?_eq_some h
+  cases harmv : (if x = symEnd then (M.st s).endArm else (M.st s).feedArm x) with
+  | none => simp [fallOut, hacc]
+  | some arm => simp [hacc, harm arm harmv]
 
 end Nmfu
